@@ -752,3 +752,4 @@ def oracle(line, out, expect):
     if expect is not None and out != expect:
         return "reference codec / generic law expects `%s`, implementation returned `%s`" % (expect[:400], out[:400])
     return None
+from ties import of as _tie_of; TIE_LAYOUTS, TIE_PINS, TIE_ENUMS = _tie_of("C18")   # static-tie lemmas (coq/Gen/Tie) this property depends on
